@@ -88,8 +88,8 @@ def run_condition(name: str, tier: str, seed: int) -> dict:
                         budget_s=(500 if tier == "quick" else 2800) if kind == "scan" else 100)
 
 
-def run_symbolic(body: Any, impl_kind: str, budget_s: float = 100, max_paths: int = 500000) -> dict:
-    e = K.Engine(max_paths=max_paths)
+def run_symbolic(body: Any, impl_kind: str, budget_s: float = 100, max_paths: int = 500000, solver_timeout_ms: int = 20000) -> dict:
+    e = K.Engine(max_paths=max_paths, solver_timeout_ms=solver_timeout_ms)
     impl = kern.Impl(impl_kind, True)
     t0 = time.time()
     deadline = t0 + budget_s
